@@ -1,8 +1,10 @@
 #![feature(allocator_api)]
 #![allow(unused, non_snake_case, non_camel_case_types, dead_code)]
 use vstd::prelude::*;
+use vstd::string::*;
 verus! {
 //@include prelude/core.rs
+//@include prelude/strings.rs
 //@include inc/codec_common.rs
 //@include inc/raw_header.rs
 //@item! stun_rs :: mod attributes > struct AttributeType
